@@ -1,13 +1,16 @@
 #!/bin/sh
 # tools/seedtest_copy.sh <abs patch.diff> <check id> [tier]  -- like seedtest.sh, but patches a private copy of /repo
-# (VERIF_REPO), so that it can run while other checks use /repo. Evidence/replay files of <check id> are overwritten.
+# (VERIF_REPO), so that it can run while other checks use /repo. Evidence/replay files go to a scratch directory
+# (VERIF_OUT) that is removed afterwards; the log is kept as /dev/shm/seedlogs/<patch dir>.<check>.log.
 p="$1"; id="$2"; tier="${3:-quick}"
 rc_dir=/dev/shm/verif-repo-copy-$$
 rm -rf $rc_dir; mkdir -p $rc_dir
 rsync -a --exclude .git /repo/ $rc_dir/ || exit 2
 ( cd $rc_dir && git apply "$p" ) || { echo "patch does not apply"; rm -rf $rc_dir; exit 2; }
-cd /verif && VERIF_REPO=$rc_dir ./check "$id" --tier "$tier" > /tmp/seedtest.$$ 2>&1; rc=$?
-rm -rf $rc_dir
+out_dir=/dev/shm/verif-seed-out-$$; mkdir -p $out_dir /dev/shm/seedlogs
+cd /verif && VERIF_OUT=$out_dir VERIF_REPO=$rc_dir ./check "$id" --tier "$tier" > /tmp/seedtest.$$ 2>&1; rc=$?
+rm -rf $rc_dir $out_dir
+cp /tmp/seedtest.$$ /dev/shm/seedlogs/$(basename $(dirname "$p")).$id.log
 grep -c "^VIOLATION" /tmp/seedtest.$$; grep "^VIOLATION" /tmp/seedtest.$$ | head -3 | cut -c1-400; grep -E "HARNESS-ERROR|^C[0-9]+ (quick|thorough):" /tmp/seedtest.$$ | head -3
 rm -f /tmp/seedtest.$$
 echo "SEEDTEST $id rc=$rc"
